@@ -14,7 +14,8 @@ RULE = ("(i) all lengths 1..128 x leading zero counts 0..len (8256 structured ca
         "single characters, all-'1' strings of length 1..64, random alphabet strings with 0..8 leading '1'; (iii) candidate "
         "strings for the checksummed decoder derived from valid encodings by substitution (incl. look-alikes 0 O I l), "
         "insertion, deletion, transposition, '1'-prefixing, truncation to 0..5 chars, case flips - each classified by the "
-        "independent decoder as badchar|short|mismatch|valid(payload); distinct = distinct (monitor, case) digests")
+        "independent decoder as badchar|short|mismatch|valid(payload); distinct = distinct (monitor, case) digests"
+        " EXTENSIONS: + carry-aliasing grid for non-alphabet characters (values -58..-1 and 58..115), consumers (WIF / extended key / wallet import / address payload), affixed out-of-range characters, 58^k-1 / 58^k / 58^k+1 and saturated / sparse inputs up to 8 KiB (thorough 128 KiB)")
 LEVEL_TEXT = ("Every encode/decode call is compared with an independent byte-wise long-division codec; the checksummed "
               "decoder is run as a differential against an independent classifier over mutated strings: it must raise for "
               "bad characters, too-short strings and checksum mismatches and return exactly the payload otherwise.")
